@@ -158,12 +158,13 @@ class Model:
                 self.call = parse_call(t, pos)
         else:
             self.kind = 'ERR'
-        self.dom = self.rng = None
+        self.dom = self.rng = self.guard = None
         self.spec = None
         for q in parts[1:]:
             u = q.split()
             if u and u[0] == 'DOM':
                 self.dom, self.rng = u[1] == '1', u[3] == '1'
+                self.guard = (u[5] == '1') if len(u) > 5 else None
             elif u and u[0] == 'SPEC':
                 self.spec = parse_call(u, 1) if u[1] == 'CALL' else None
 
@@ -362,6 +363,10 @@ def judge(ctx, rec, where='gen'):
         return False
     if M.kind == 'ERR':
         raise vf.Infra('oracle error: ' + M.line[:300])
+    if M.guard is False:
+        viol(ctx, 'model.range-guard', 'ScalePaths range test passed but a NaN-free coordinate converts outside +-2^61 (model level): %s' % c.body()[:300],
+             replay=c.to_json())
+    ctx.count('range_guard_evaluations')
     if not M.dom or not (-8 <= c.p <= 8):
         ctx.count('outside_domain')
         return False
